@@ -81,6 +81,19 @@ CHECKS = {
  "C25": ("exploration", "recorded concurrent history + Send recorder + per-key admissible-snapshot interval intersection; delay injection at stream hooks; race detector",
          "Stream runs (NumGo 1-16, Prefix, ChooseKey, SinceTs) concurrent with 8 committers; for every chosen key the set of snapshot timestamps explaining what was delivered is intersected with [last ack before Orchestrate, inf); empty intersection = violation; each key once; Send never concurrent.",
          "Default ToList with NumVersionsToKeep=1.", "4/C25"),
+
+ "C26": ("exploration", "runtime monitor: StreamWriter output compared with the streamed entries (model) after Flush and after re-open, plus structure validator",
+         "Generated sorted entry sets cut into 1-8 streams with random batching, interleaved stream ids and done markers, written through Prepare or 1-3 PrepareIncremental rounds, normal and managed, plain/compressed/encrypted; full state incl. AllVersions must equal the streamed entries (+ pre-existing data), C14 validator, C11 oracle.",
+         "Streams obey the API precondition (sorted, non-overlapping); compaction disabled.", "4/C26"),
+ "C30": ("exploration", "uniqueness/monotonicity monitor over all numbers handed out by concurrent Sequence objects across Release and restarts; race detector",
+         "2-8 goroutines on 1-4 Sequence objects for one key (bandwidth 1-5), 2-4 epochs separated by Release and close/re-open; every number returned with nil error is logged; globally unique, strictly increasing per object and caller.",
+         "Crash epochs are exercised by the crash engine (C08 family) when built; numbers compared as returned.", "4/C30"),
+ "C31": ("exploration", "recorded Add/Get call/return history checked by a direct append-list monitor and (small histories) porcupine; race detector",
+         "2-6 clients on one MergeOperator with list-append merge function, merge interval 1-40 ms, tiny memtables with background flush/compaction, 2-3 phases separated by Stop/Close/re-open; Gets must return duplicate-free prefixes-comparable lists containing every completed Add in real-time-consistent order.",
+         "Merge function associative; interleavings from the merge ticker.", "4/C31"),
+ "C32": ("exploration", "reference matcher on user keys + delivery log compared as a multiset with the marker-resolved committed writes; race detector",
+         "2-6 subscribers with hostile prefix/ignore patterns registered before 6 committers write hostile keys; each subscriber's deliveries must equal exactly the committed writes whose user key matches, once each, in non-decreasing version order; cancellation ends Subscribe.",
+         "Registration confirmed via a verif-only subscriber count; !badger! keys ignored.", "4/C32"),
 }
 
 def hooks_commits():
